@@ -41,8 +41,13 @@ C_Util(e) == e.op = "util" =>
      [] e.name = "DerefZero" -> e.r = (IF e.kind = "nil" THEN 0 ELSE e.v[1])
      [] e.name = "IsNil" -> e.rb = (e.kind \in {"nil-any", "nil-error"})      \* typed nil pointer inside an interface is not nil
      [] OTHER -> FALSE
+\* floating and complex types: "Sum and Product equal left-to-right + and *" -- the built-in operators are the primitives,
+\* the recorded left-to-right fold must have the identical bit pattern (NaN results are excluded)
+NaNBits(b) == \E i \in 1..Len(b) : b[i] = -1
+C_FloatSum(e) == e.op = "fsum" => /\ (~NaNBits(e.lrsum) => e.sum = e.lrsum)
+                                  /\ (~NaNBits(e.lrprod) => e.prod = e.lrprod)
 C_NoPanic(e) == e.panic = (IF e.op = "vari" /\ Len(e.v) = 0 THEN "minmax" ELSE "")   \* Min()/Max() with no argument panic (documented)
-All(e) == C_MinMax(e) /\ C_SumProd(e) /\ C_Compare(e) /\ C_ClampRank(e) /\ C_Table(e) /\ C_Point(e) /\ C_Util(e) /\ C_NoPanic(e)
+All(e) == C_FloatSum(e) /\ C_MinMax(e) /\ C_SumProd(e) /\ C_Compare(e) /\ C_ClampRank(e) /\ C_Table(e) /\ C_Point(e) /\ C_Util(e) /\ C_NoPanic(e)
 TInit == l = 1
 Step == l <= Len(Trace) /\ l' = l + 1 /\ (Gate => All(Ev))
 TSpec == TInit /\ [][Step]_vars
@@ -56,6 +61,7 @@ I_ClampRank == Chk => C_ClampRank(Obs)
 I_Table == Chk => C_Table(Obs)
 I_Point == Chk => C_Point(Obs)
 I_Util == Chk => C_Util(Obs)
+I_FloatSum == Chk => C_FloatSum(Obs)
 Track == TrackL(l)
 Accepted == AcceptedP
 ====
